@@ -1,4 +1,4 @@
-import AasVerif.Model.RevmCompile
+import AasVerif.Model.RevmSpec
 import AasVerif.Model.Retree.Wire
 import AasVerif.Gen.Revm
 namespace AasVerif.Drive.C18
@@ -44,15 +44,12 @@ def encOut : Option Out → String
   | some (.ret false) => "0"
   | some (.crash s) => "crash:" ++ s
 
-def accepted (r : Retree.Regex) : Bool :=
-  match translate r with
-  | .ok _ => true
-  | .crash _ => false
 
 /--
 * `translate <regex>` → `ok <shape> <program>` | `crash:<ExceptionType>`
 * `raw <regex>` → the nested tree of `_Translator().transform(regex)` before the post-passes
 * `compile <regex>` → the clean compositional program (no labels)
+* `accepted <regex>` → `1`/`0`: the hypothesis `Accepted` of the theorems
 * `match <fuel> <regex> <text>` → `<new> <old>`: the `Match` loop as generated now (per `Gen.Revm.popClearsHas`)
   with the proved-sufficient fuel, and the loop with `Pop` resetting `has_` with the given fuel
 * `inranges <first-last,…> <c>` → `<CharacterInRanges> <any>`
@@ -71,6 +68,9 @@ def handle : List String → Option String
   | ["compile", w] => do
     let r ← Retree.Wire.dec w
     some (encProgram ((compileTop r).map fun i => ⟨i, none⟩))
+  | ["accepted", w] => do
+    let r ← Retree.Wire.dec w
+    some (if acceptedB r then "1" else "0")
   | ["match", fuel, w, t] => do
     let r ← Retree.Wire.dec w
     let t ← Text.dec t
